@@ -88,17 +88,14 @@ func runC01(r *Run) {
 			if !isM || nm != "Quo" || len(args) != 1 {
 				return true
 			}
-			ast.Inspect(args[0], func(m ast.Node) bool {
-				if id, isID := m.(*ast.Ident); isID && nv.objOf(id) != nil && resolvesToCallV(nv, id, "TotalDelegatedAmountForStakerAsset") {
-					okDen = true
-					for _, f := range nv.FactsAt(as, false) {
-						if o := nv.outcome(f); o != nil && o.Callee.Name() == "IsZero" && !o.Success && nv.objOf(rootIdent(o.Call.Fun)) == nv.objOf(id) {
-							okGuard = true
-						}
+			if id := identFromCall(nv, args[0], "TotalDelegatedAmountForStakerAsset", 0); id != nil {
+				okDen = true
+				for _, f := range nv.FactsAt(as, false) {
+					if o := nv.outcome(f); o != nil && o.Callee.Name() == "IsZero" && !o.Success && nv.objOf(rootIdent(o.Call.Fun)) == nv.objOf(id) {
+						okGuard = true
 					}
 				}
-				return true
-			})
+			}
 			return true
 		})
 		r.check(okDen, "C01.R7", "nst|proportion-over-share-value", nv.pos(nv.Decl), "the part of a balance decrease that reaches the delegated share is divided by the current token value of the staker's shares", "UpdateNSTBalance does not divide by TotalDelegatedAmountForStakerAsset(staker, asset): a figure derived from the staker's deposit record is stale after an operator slash and the decrease is only partly taken out")
@@ -579,4 +576,33 @@ func allAssignsToDeref(v *FnView) []*ast.AssignStmt {
 		return true
 	})
 	return out
+}
+
+// identFromCall: the identifier inside e (followed through single-definition aliases, conversions and
+// wrapping calls) that holds the result of a call to the named function.
+func identFromCall(v *FnView, e ast.Expr, name string, depth int) *ast.Ident {
+	var found *ast.Ident
+	ast.Inspect(e, func(n ast.Node) bool {
+		id, ok := n.(*ast.Ident)
+		if !ok || found != nil {
+			return found == nil
+		}
+		o, isVar := v.objOf(id).(*types.Var)
+		if !isVar || o.IsField() {
+			return true
+		}
+		if resolvesToCallV(v, id, name) {
+			found = id
+			return false
+		}
+		if depth < 4 {
+			if defs := v.defsOf(o); len(defs) == 1 {
+				if _, isCall := stripParens(defs[0]).(*ast.CallExpr); isCall {
+					found = identFromCall(v, defs[0], name, depth+1)
+				}
+			}
+		}
+		return true
+	})
+	return found
 }
